@@ -103,6 +103,17 @@ def generate(rng, tier, rep):
         c.update({'fails': ['t.late_eof'], 'errs': [], 'ran': 3, 'before': '', 'after': '', 'intact': True, 'cut': None, 'big': False,
                   'end': 'exit0', 'hold_stderr': hold})
         cases.append(c)
+    # multi-byte names that straddle the offsets at which a reader working in blocks would cut the child's stderr: ASCII noise pads
+    # the stream so that a power-of-two offset falls inside a character of a name in the middle of the report
+    for B in {'quick': [1024, 4096, 8192, 65536, 131072, 1048576], 'thorough': [2 ** k for k in range(9, 23)], 'search': [8192, 65536]}[tier]:
+        c, _ = fake_case(rng, 'quick')
+        names = ['\u6d4b\u8bd5\u7528\u4f8b' * rng.randint(2, 5) + ' (\u6a21\u5757.\u7c7b.t%d)' % i for i in range(12)]
+        c.update({'fails': names[:6], 'errs': names[6:], 'ran': 20, 'before': '', 'after': '', 'intact': True, 'cut': None, 'big': False,
+                  'end': 'exit0', 'stdout': '', 'verbose': ''})
+        repb = report_bytes(c['ran'], c['fails'], c['errs'])
+        conts = [i for i in range(len(repb)) if 0x80 <= repb[i] <= 0xBF and i < B]
+        c['pad'] = B - conts[len(conts) // 2]
+        cases.append(c)
     # real children dying at crash points, and spawn failure
     m = {'quick': 24, 'thorough': 200, 'search': 0}[tier]
     for i in range(m):
@@ -118,6 +129,8 @@ def generate(rng, tier, rep):
             rep.count('end=%s' % c['end'])
             rep.count('cut' if c['cut'] is not None else ('intact' if c['intact'] else 'lookalike'))
             rep.count('names<=%d' % (10 ** len(str(len(c['fails']) + len(c['errs'])))))
+            if c.get('pad'):
+                rep.count('multi-byte name straddling a power-of-two offset of the stream')
         else:
             rep.count('crash=%s/%s' % (c['where'], c['how']))
     return cases
@@ -155,6 +168,10 @@ def child_stderr(c):
     if c['cut'] is not None:
         rep = rep[:c['cut']]
     big = (b'stderr noise line that is not a header\n' * 60000) if c.get('big') else b''
+    pad = c.get('pad') or 0
+    if pad:
+        # exactly `pad` bytes of ASCII lines none of which reads as a header
+        big += (b'x' * 63 + b'\n') * (pad // 64) + (b'y' * (pad % 64 - 1) + b'\n' if pad % 64 else b'')
     return big + bytes.fromhex(c['before']) + rep + bytes.fromhex(c['after'])
 
 
@@ -198,7 +215,8 @@ def to_coq(c, o):
     comm = any(e.startswith('subprocess for ') for e in errors)
     errs = [e for e in errors if not e.startswith('subprocess for ')]
     if c['kind'] == 'fake':
-        sb = child_stderr(c) if not c.get('big') else bytes.fromhex(c['before']) + child_stderr(dict(c, big=False, before=''))
+        # the constant ASCII noise of big / padded cases is left out of the model's input (none of its lines reads as a header)
+        sb = child_stderr(c) if not (c.get('big') or c.get('pad')) else bytes.fromhex(c['before']) + child_stderr(dict(c, big=False, pad=0, before=''))
         truth = '(Some (%s, %s, %s))' % (g_Z(c['ran']), g_list([g_bytes(n.encode()) for n in c['fails']]), g_list([g_bytes(n.encode()) for n in c['errs']]))
         intact = c['intact'] and c['cut'] is None
         spawned = True
@@ -255,6 +273,8 @@ def shrink_candidates(c):
         yield dict(c, after='')
     if c.get('big'):
         yield dict(c, big=False)
+    if c.get('pad'):
+        yield dict(c, pad=0)
 
 
 TECHNIQUE = ('Coq model of the byte-level report protocol (Channel.v) with a round-trip theorem over bytes incl. decimal rendering, '
